@@ -173,6 +173,17 @@ func (w *originWalker) walk(v ssa.Value, idx int, e *env, depth int) {
 				w.walk(ia.X, -1, e, depth+1)
 				return
 			}
+			if al, ok := a.X.(*ssa.Alloc); ok {
+				// field of a local struct copy: the struct value stored into the cell
+				whole := false
+				for _, st := range StoresTo(al) {
+					whole = true
+					w.walk(st.Val, -1, e, depth+1)
+				}
+				if whole {
+					return
+				}
+			}
 			fv := fieldVar(a)
 			if w.o.FollowFields && fv != nil {
 				vals := w.fieldStoreValues(fv)
@@ -199,7 +210,8 @@ func (w *originWalker) walk(v ssa.Value, idx int, e *env, depth int) {
 	case *ssa.Call:
 		w.call(t, idx, e, depth)
 	case *ssa.Field:
-		w.leaf(v, idx, "field")
+		// component of a struct value (e.g. a field of a call's struct result)
+		w.walk(t.X, -1, e, depth+1)
 	default:
 		w.leaf(v, idx, "other")
 	}
